@@ -185,9 +185,78 @@ func runC06EntryPoints(r *core.Run) {
 	}
 }
 
+// c06Conflicts are configurations in which two options speak about the same thing through the renderer-option channel
+// (stored in a map and applied in map iteration order on first use): whatever the documented winner is, it has to be the
+// same one on every fresh instance.
+var c06Conflicts = []c06Custom{
+	{"footnote+renderer-options(prefix, prefix function)", func() goldmark.Markdown {
+		return goldmark.New(goldmark.WithExtensions(extension.Footnote), goldmark.WithRendererOptions(
+			extension.WithFootnoteIDPrefix("a-"), extension.WithFootnoteIDPrefixFunction(func(ast.Node) []byte { return []byte("b-") })))
+	}},
+	{"NewFootnote(prefix)+renderer-options(prefix function, titles, classes)", func() goldmark.Markdown {
+		return goldmark.New(goldmark.WithExtensions(extension.NewFootnote(extension.WithFootnoteIDPrefix("c-"))), goldmark.WithRendererOptions(
+			extension.WithFootnoteIDPrefixFunction(func(ast.Node) []byte { return []byte("d-") }), extension.WithFootnoteLinkTitle("t"), extension.WithFootnoteBacklinkTitle("u"),
+			extension.WithFootnoteLinkClass("k"), extension.WithFootnoteBacklinkClass("l"), extension.WithFootnoteBacklinkHTML("m")))
+	}},
+	{"table(attr)+renderer-options(style)+xhtml+unsafe+hardwraps", func() goldmark.Markdown {
+		return goldmark.New(goldmark.WithExtensions(extension.NewTable(extension.WithTableCellAlignMethod(extension.TableCellAlignAttribute)), extension.TaskList, extension.NewCJK()),
+			goldmark.WithRendererOptions(extension.WithTableCellAlignMethod(extension.TableCellAlignStyle), html.WithXHTML(), html.WithUnsafe(), html.WithHardWraps(),
+				html.WithEastAsianLineBreaks(html.EastAsianLineBreaksCSS3Draft), html.WithWriter(html.NewWriter(html.WithEscapedSpace()))))
+	}},
+	{"typographer+linkify options through both channels", func() goldmark.Markdown {
+		return goldmark.New(goldmark.WithExtensions(
+			extension.NewTypographer(extension.WithTypographicSubstitutions(map[extension.TypographicPunctuation]string{extension.EnDash: "N"})),
+			extension.NewLinkify(extension.WithLinkifyAllowedProtocols([]string{"http:"}))),
+			goldmark.WithParserOptions(extension.WithTypographicSubstitutions(map[extension.TypographicPunctuation]string{extension.EnDash: "M"}),
+				extension.WithLinkifyAllowedProtocols([]string{"ftp:"}), parser.WithAutoHeadingID(), parser.WithAttribute()))
+	}},
+}
+
+// runC06Fresh: a new instance of one configuration is a function of that configuration: K instances built one after the
+// other must all give the same bytes. (Option maps are iterated in an order the runtime randomises per map, so this part
+// repeats construction instead of enumerating; it is reported as a companion, not as exhaustive.)
+func runC06Fresh(r *core.Run) {
+	k := core.Pick(r, 200, 1000)
+	docs := []string{"a[^1] b[^1] -- 'q'\n\n[^1]: n\n\n|h|\n|:-:|\n|c|\n\n- [ ] t\n\n<b>r</b> ![i](j)\nx\\ y www.a.bc ftp://d.e http://f.g\n\n# h {#i}\n"}
+	var all []c06Custom
+	all = append(all, c06Conflicts...)
+	all = append(all, c06Customs...)
+	s := r.Sub("fresh-instances", fmt.Sprintf("%d configurations (%d of them with two options about the same setting given through the option-map channel): %d instances of each are built one after the other and must all convert a kitchen-sink document to the same bytes; NOT exhaustive (map iteration order is chosen by the runtime)", len(all), len(c06Conflicts), k))
+	s.Exhaustive = false
+	s.Companion = true
+	core.ForEachIndex(len(all), core.Workers(), func(w int) func(int) {
+		return func(i int) {
+			var ref []byte
+			for j := 0; j < k; j++ {
+				cv := &core.Conv{MD: all[i].mk()}
+				for _, d := range docs {
+					out, err, pan := cv.Convert([]byte(d))
+					s.Evals.Add(1)
+					if err != nil || pan != nil {
+						s.Violate("fresh-instance-failed:"+all[i].name, all[i].name, []byte(d), nil, fmt.Sprintf("err=%v panic=%v", err, pan), "", "")
+						return
+					}
+					if j == 0 {
+						ref = append([]byte{}, out...)
+						s.Distinct(core.Hash(out))
+					} else if !bytes.Equal(ref, out) {
+						s.Violate("fresh-instances-differ:"+all[i].name, all[i].name, []byte(d), nil, fmt.Sprintf("instance %d of the same configuration gives other bytes than instance 0", j), string(ref), string(out))
+						return
+					}
+				}
+			}
+		}
+	}, r.Expired)
+	s.Bound = fmt.Sprintf("%d configurations × %d fresh instances", len(all), k)
+	s.States.Store(int64(len(all) * k))
+	s.Transitions.Store(s.Evals.Load())
+	s.Done()
+}
+
 func runC06(r *core.Run) {
 	runC06Order(r)
 	runC06EntryPoints(r)
+	runC06Fresh(r)
 	depth := core.Pick(r, 3, 4)
 	ops := c06Ops(len(c06Docs))
 	for _, cn := range []string{"core", "gfm", "all+autoid+attr", "all+cjk+autoid+attr+xhtml+align=style", "custom+autoid+attr+unsafe"} {
